@@ -14,9 +14,9 @@ retransmitting as 'not-delivered-within-horizon'.  Exceptions from a send API
 are violations.
 """
 from mc import core, explore
-from mc.world import World
+from mc.world import World, Monitor
 from mc.pair import DeliveryMonitor, app_send, payload, quiescent
-from mpgameserver.connection import Packet, ConnectionStatus
+from mpgameserver.connection import Packet, ConnectionStatus, ConnectionBase, FragmentSender
 
 PROPERTY = "C05"
 LEVEL = "model_checking"
@@ -28,6 +28,53 @@ APIS = {
     "s.send(RETRY_ON_TIMEOUT)": ("s", "send"),
 }
 HORIZON_S = 6.0
+
+
+class ExpiryWatch(Monitor):
+    """observes, per received fragment, what happens to the partial reassembly contexts of the receiving endpoint:
+    a context that loses fragments it already held (and that had been acked) without its message completing.
+    Wraps ConnectionBase._recvAppFragment for the duration of one execution."""
+
+    def __init__(self):
+        Monitor.__init__(self)
+        self.events = set()
+        self.gap = {}
+        self.orig = ConnectionBase.__dict__["_recvAppFragment"]
+        watch = self
+
+        def wrapper(conn, msgseq, fragment):
+            try:
+                own = FragmentSender.parsePayload(fragment)[0]
+            except Exception:
+                own = None
+            before = watch.snap(conn)
+            try:
+                return watch.orig(conn, msgseq, fragment)
+            finally:
+                after = watch.snap(conn)
+                for fid, held in before.items():
+                    if not held:
+                        continue
+                    if fid != own and fid not in after:
+                        silent = watch.gap.get(id(conn), 0.0) > conn.outgoing_timeout
+                        watch.events.add("the arrival of a fragment of ANOTHER message expired the context " +
+                                         ("right after the link had been silent for longer than the message timeout" if silent else
+                                          "while datagrams kept arriving (selective loss of the missing fragment for longer than 1 + count/2 s)"))
+                    elif fid == own and fid in after and not (held <= after[fid]):
+                        watch.events.add("a late fragment of the SAME message found its context expired and started an empty one")
+        ConnectionBase._recvAppFragment = wrapper
+
+    def close(self):
+        ConnectionBase._recvAppFragment = self.orig
+
+    def before_recv(self, w, conn, hdr, datagram):
+        # time since this endpoint last heard from its peer, for the datagram now being processed
+        self.gap[id(conn)] = (w.vt.now - conn.last_recv_time) if conn.last_recv_time > 0 else 0.0
+        return None
+
+    @staticmethod
+    def snap(conn):
+        return {fid: frozenset(i for i, f in enumerate(r.fragments) if f is not None) for fid, r in conn.received_fragments.items()}
 
 
 def caps(mtu):
@@ -53,11 +100,16 @@ def scenario(params, ch):
     api, size, mtu, fates, blackout, other, order, latency, window = params
     sender, method = APIS[api]
     mon = DeliveryMonitor(flag_delivery=False)
+    watch = ExpiryWatch()
     opts = order.split("|")[1:]     # "cs|dt60": 60 Hz frames; "cs|ka0.5": keep-alive (= resend delay) 0.5 s on both ends
     order = order.split("|")[0]
     ka = next((float(o[2:]) for o in opts if o.startswith("ka")), None)
-    w = World(order=order, latency=latency, chooser=ch, monitors=[mon], mtu=mtu, dt=(1.0 / 60 if "dt60" in opts else 1.0 / 64),
-              server_cfg=({"setKeepAliveInterval": ka} if ka else None), client_cfg=({"setKeepAliveInterval": ka} if ka else None))
+    try:
+        w = World(order=order, latency=latency, chooser=ch, monitors=[mon, watch], mtu=mtu, dt=(1.0 / 60 if "dt60" in opts else 1.0 / 64),
+                  server_cfg=({"setKeepAliveInterval": ka} if ka else None), client_cfg=({"setKeepAliveInterval": ka} if ka else None))
+    except BaseException:
+        watch.close()
+        raise
     try:
         w.run_until_connected()
         w.run(2)
@@ -85,7 +137,27 @@ def scenario(params, ch):
             # unrelated traffic in the same and the opposite direction
             app_send(w, mon, sender, payload(2, 30), "none")
             app_send(w, mon, "s" if sender == "c" else "c", payload(3, 30), "best")
-        if blackout:
+        if blackout and blackout[0] == "hole":
+            # an MTU black hole in the data direction: datagrams above the threshold are lost for ``ticks`` ticks while
+            # keep-alives, acks and small fragments keep arriving (the link is never silent)
+            _, start, ticks, larger_than = blackout
+            w.run(start)
+            w.start_blackhole("c2s" if sender == "c" else "s2c", ticks, larger_than)
+            if other in ("stream", "stream+frag"):
+                # the application keeps sending small unretried messages: they travel in datagrams of their own
+                # whenever the lost fragment is not due for a resend, so the receiver keeps hearing from its peer
+                for k in range(ticks + 2):
+                    app_send(w, mon, sender, b"bg%c" % (k % 251), "none")
+                    if other == "stream+frag" and k == ticks - 8:
+                        # shortly before the hole closes a second fragmented guaranteed message is sent: its small last
+                        # fragment gets through at once
+                        second = payload(7, size)
+                        wanted.append(second)
+                        app_send(w, mon, sender, second, "retry", tag="g2", api=method)
+                    w.tick()
+            else:
+                w.run(max(0, window - start))
+        elif blackout:
             direction, start, ticks = blackout
             if direction == "data":
                 direction = "c2s" if sender == "c" else "s2c"
@@ -95,7 +167,7 @@ def scenario(params, ch):
         else:
             w.run(window)
         w.fates = []  # healed
-        heal_tick = max([w.tickno] + list(w.blackout.values()) + [d.release_tick for d in w.net])
+        heal_tick = max([w.tickno] + list(w.blackout.values()) + [h[0] for h in w.blackhole.values()] + [d.release_tick for d in w.net])
         nfrag = max(1, size // 1000)
         horizon = heal_tick + int((HORIZON_S + nfrag * 2.0 / 64) / w.dt)
         recv = "s" if sender == "c" else "c"
@@ -112,6 +184,9 @@ def scenario(params, ch):
         if not delivered and c_ok and s_ok:
             P, F = caps(mtu)
             cls = size_class(size, P, F)
+            if watch.events:
+                # the receiver threw away fragments it had acknowledged (they are never sent again)
+                cls += " [receiver discarded acked fragments of a partially received message: %s]" % "; ".join(sorted(watch.events))
             if quiescent(w):
                 ch.flag("silently-unsent", "guaranteed message forgotten by the sender, never delivered: %s" % cls,
                         "%s len=%d mtu=%d: sender quiescent, peer never got it" % (api, size, mtu))
@@ -121,6 +196,7 @@ def scenario(params, ch):
                             api, size, mtu, len((w.clients[0].conn if sender == 'c' else w.server_conn(0)).outgoing_messages),
                             len((w.clients[0].conn if sender == 'c' else w.server_conn(0)).pending_retry_msg)))
     finally:
+        watch.close()
         for v in mon.violations:
             ch.flag(*v)
         w.close()
@@ -169,6 +245,13 @@ def params_list(tier):
                     if tier == "quick" and (b[2] != 200 or mtu != 1500):
                         continue
                     out.append((api, size, mtu, ("drop", "delay8"), b, "frag", "cs", 1, 10))
+    # selective loss by size (the large fragment of a message is lost for longer than the receiver-side expiry of
+    # 1 + n/2 s, the small one arrives at once), then healed
+    for api in ("c.send_guaranteed", "s.send_guaranteed"):
+        for size, thr in ((1500, 600), (2400, 600), (2100, 200)):
+            for ticks in ((70, 141, 200) if tier == "quick" else (30, 70, 100, 141, 170, 200, 260)):
+                for other in (("stream", "stream+frag") if tier == "quick" else (False, True, "stream", "stream+frag")):
+                    out.append((api, size, 1500, (), ("hole", 0, ticks, thr), other, "cs", 1, 4))
     if tier == "thorough":
         out.append(("c.send_guaranteed", 256 * 1024, 1500, (), None, False, "cs", 1, 4))
         out.append(("s.send_guaranteed", 256 * 1024, 1500, (), ("s2c", 40, 30), False, "cs", 1, 4))
